@@ -4,6 +4,7 @@ package main
 // drawn per run from the seed). The output is an explicit Plan.
 
 import (
+	"encoding/json"
 	"fmt"
 	"strings"
 )
@@ -1123,6 +1124,33 @@ func genExtraOp(r *rng, p *Plan, usable func(ver int, mut bool) []int) (Op, bool
 	var args []string
 	var objCells []int
 	for _, k := range fn.Params {
+		if strings.HasPrefix(k, "json:") {
+			// an options struct: a random subset of its fields set
+			if r.chance(0.1) {
+				args = append(args, "nil") // (a nil pointer, or the zero value)
+				continue
+			}
+			var fl []string
+			for _, f := range strings.Split(k[5:], ",") {
+				nv := strings.SplitN(f, "=", 2)
+				if len(nv) != 2 || r.chance(0.4) {
+					continue
+				}
+				switch nv[1] {
+				case "bool":
+					fl = append(fl, fmt.Sprintf("%q:%v", nv[0], r.chance(0.6)))
+				case "int":
+					fl = append(fl, fmt.Sprintf("%q:%d", nv[0], []int{0, 1, 2, 3, 10, 100}[r.intn(6)]))
+				case "float":
+					fl = append(fl, fmt.Sprintf("%q:%v", nv[0], genRatingArg(r)))
+				default:
+					b, _ := json.Marshal(genMetric(r, fn.Ver, 0.3))
+					fl = append(fl, fmt.Sprintf("%q:%s", nv[0], b))
+				}
+			}
+			args = append(args, "{"+strings.Join(fl, ",")+"}")
+			continue
+		}
 		switch k {
 		case "obj", "objptr":
 			// an object of the caller's: now and then the receiver itself or the
@@ -1178,6 +1206,8 @@ func genExtraOp(r *rng, p *Plan, usable func(ver int, mut bool) []int) (Op, bool
 			default:
 				args = append(args, "nil")
 			}
+		case "func":
+			args = append(args, []string{"noop", "noop", "nil"}[r.intn(3)]) // a callback that does nothing, or none
 		case "int":
 			args = append(args, fmt.Sprint([]int{0, 1, 2, 3, 7, 10, 100, -1}[r.intn(8)]))
 		case "float":
